@@ -828,7 +828,8 @@ func (g *gen) tickMs() int {
 	case 6:
 		return 86400000 * 365 * g.w.Range(1, 10)
 	default:
-		return g.w.Range(1, 50)
+		// round values: timer-aligned tasks wake up at the same instant
+		return []int{1, 2, 5, 10, 1000}[g.w.Intn(5)]
 	}
 }
 
